@@ -472,6 +472,10 @@ class Calibrator(BaseSeedable):
                 if self.saving_folder is not None:
                     self.create_checkpoint(self.saving_folder)
 
+            if n_batches <= 0 and self.saving_folder is not None:
+                # no batch was run: the folder must still hold the state this call returns with
+                self.create_checkpoint(self.saving_folder)
+
             idx = np.argsort(self.losses_samp)
 
         return self.params_samp[idx], self.losses_samp[idx]
